@@ -71,12 +71,14 @@ pub fn gen_fn_map(rng: &mut Rng, size: usize) -> Value {
 pub fn gen_hermes_doc(rng: &mut Rng, size: usize) -> Value {
     let nsrc = if rng.chance(1, 12) { 64 + rng.below(10) } else { 1 + rng.below(3) };
     let ntok = if nsrc > 10 { 100 + rng.below(100) } else { rng.below((size * 5) as u64 + 1) };
+    let with_range = rng.chance(1, 3);
     let mut toks = vec![];
     let mut col = 0i64;
     for _ in 0..ntok {
         col += rng.range(1, 9);
         let src = if rng.chance(1, 10) { -1 } else { rng.below(nsrc) as i64 };
-        toks.push(json!([0, col, src, if src >= 0 { rng.range(0, 6) } else { 0 }, if src >= 0 { rng.range(0, 40) } else { 0 }, -1, 0]));
+        toks.push(json!([0, col, src, if src >= 0 { rng.range(0, 6) } else { 0 }, if src >= 0 { rng.range(0, 40) } else { 0 }, -1,
+                         if with_range && src >= 0 && rng.chance(1, 3) { 1 } else { 0 }]));
     }
     let srcs: Vec<Value> = (0..nsrc).map(|i| json!([cps(&format!("s{}.js", i))])).collect();
     let xfs: Vec<Value> = (0..nsrc).map(|_| match rng.below(8) {
@@ -86,16 +88,20 @@ pub fn gen_hermes_doc(rng: &mut Rng, size: usize) -> Value {
         3 => json!([[{"names": ["x"], "mappings": [0, 32]}]]),              // unparsable (cut off)
         _ => json!([[gen_fn_map(rng, size)]]),
     }).collect();
-    json!({"version": [3], "sources": [srcs], "names": [[]], "mappings": [own_mappings(&toks)], "xfs": [xfs]})
+    let mut d = json!({"version": [3], "sources": [srcs], "names": [[]], "mappings": [own_mappings(&toks)], "xfs": [xfs]});
+    if let Some(r) = own_range(&toks) { d["range"] = json!([r]); }
+    d
 }
 
 pub fn gen(rng: &mut Rng, size: usize) -> Value {
-    let prefixes: Vec<Value> = match rng.below(6) {
+    let prefixes: Vec<Value> = match rng.below(8) {
         0 => vec![],
         1 => vec![cps("/abs")],
         2 => vec![cps("/abs/")],
         3 => vec![cps("dir"), cps("/abs"), cps("http://h")],
         4 => vec![cps("/"), cps("abs"), cps("dir")],          // chained: the remainder begins with a later prefix
+        5 => vec![cps("/abs/sub"), cps("/abs"), cps("/")],    // nested, most specific first
+        6 => vec![cps("r/dir"), cps("r")],
         _ => vec![cps("r"), cps("r/dir/")],
     };
     let opts = json!({"names": rng.chance(1, 2), "contents": rng.chance(1, 2), "prefixes": prefixes});
